@@ -32,7 +32,7 @@ import (
 func init() { register("C16", checkC16) }
 
 func checkC16(ctx *Ctx, r *Report, tier string) {
-	r.Explain = "Interval.Overlap is decided over all orderings of its four values; the point-to-box distance interval is decided per position class (3^d classes) by matching the symbolic candidates of the minimum against the true squared distance of that class; the pruning loop of the 2D union is decided from its recurrences (what is compared, what is always evaluated, what may be skipped, how the fold proceeds, no early exit) and compared with the exhaustive fold. Not decided: that an operand's value is bounded by its box interval (C01/C03)."
+	r.Explain = "Interval.Overlap is decided over all orderings of its four values; the point-to-box distance interval is decided per position class (3^d classes) by matching the symbolic candidates of the minimum against the true squared distance of that class; the pruning loop of the 2D union is decided from its recurrences (what is compared, what is always evaluated, what may be skipped, how the fold proceeds, no early exit) and compared with the exhaustive fold. Not decided: that an operand's value is bounded by its box interval (C01/C03). With a blend function installed through SetMin no operand is skipped."
 	r.Exhaust = true
 	r.Trusted = []string{"go/types", "go/ssa", "sdfxlint gated symbolic evaluator", "blend functions are symmetric monotone minimum-like functions"}
 	r.Assume = []string{"boxes are ordered (Min <= Max)", "operands' values are bounded by their box distance interval (C01, C03)"}
